@@ -158,6 +158,14 @@ def judgeObs (a : Acc) (o : Json) : P Acc := do
       if reserved.contains n || shadows then
         a1 := a1.fail s!"advertised name '{String.ofList n}' shadows a public Vector/Table attribute"
     return a1
+  | "rowitem" =>
+    let res ← listF (asPair asStrChars asObs) o "res"
+    let non ← listF (asPair asStrChars asBool) o "non"
+    let mut a1 := judgeLookups a "t[0][name] / t[0, name]" Op.row res
+    for (nm, isErr) in non do
+      if (posOf acc nm).isNone && !isErr then
+        a1 := a1.fail s!"t[0, '{String.ofList nm}'] returned something although no column answers to that name (an attribute of the row object leaked out)"
+    return a1
   | "getattr" | "row" | "setitem" =>
     let res ← listF (asPair asStrChars asObs) o "res"
     let mk : Str → Op := match k with
